@@ -101,8 +101,21 @@ class Shrinker:
                     self.min_list(lambda p, i=i: p["steps"][i]["text"].split("\n")[2:],
                                   lambda p, v, i=i: p["steps"][i].__setitem__(
                                       "text", "\n".join(p["steps"][i]["text"].split("\n")[:2] + v)))
-            if isinstance(st.get("kwargs"), dict) and len(st["kwargs"]) > 0:
-                pass
+            if isinstance(st.get("prog"), dict):
+                # C07 data model: statements of the body, loop bodies, include lines
+                self.min_list(lambda p, i=i: p["steps"][i]["prog"]["body"],
+                              lambda p, v, i=i: p["steps"][i]["prog"].__setitem__("body", v))
+                body = self.plan["steps"][i]["prog"]["body"]
+                for k in range(len(body)):
+                    if body[k].get("k") == "loop":
+                        self.min_list(lambda p, i=i, k=k: p["steps"][i]["prog"]["body"][k]["body"],
+                                      lambda p, v, i=i, k=k: p["steps"][i]["prog"]["body"][k].__setitem__("body", v) if v else None)
+                        self.min_list(lambda p, i=i, k=k: p["steps"][i]["prog"]["body"][k]["vals"],
+                                      lambda p, v, i=i, k=k: p["steps"][i]["prog"]["body"][k].__setitem__("vals", v) if v else None)
+                self.min_list(lambda p, i=i: p["steps"][i]["prog"]["includes"],
+                              lambda p, v, i=i: p["steps"][i]["prog"].__setitem__("includes", v))
+                self.attempt(lambda c, i=i: c["steps"][i]["prog"].__setitem__("comments", False))
+                self.attempt(lambda c, i=i: c["steps"][i]["prog"].__setitem__("target", None))
         # a second pass over steps often removes steps that only mattered to dropped lines
         self.min_list(lambda p: p["steps"], lambda p, v: p.__setitem__("steps", v))
         return self.plan
